@@ -176,8 +176,7 @@ def run_check(prop, tier, seed, replay=None):
                              "; the tie theorems can no longer be stated"), nofail=True)
     imports = "".join(f"Require Import Run.{t.modname}.\n" for t in targets)
     defs_text = tiemod.HEADER + getattr(prop, "TIE_IMPORTS", "") + imports + "".join(o.defs for o in obs)
-    (bdir / "Tie_defs.v").write_text(defs_text)
-    ok, out, secs = core.coqc(bdir / "Tie_defs.v", extra_dirs=[(bdir, "Run")])
+    ok, out, secs = compile_tie_defs(bdir, tiemod.HEADER + getattr(prop, "TIE_IMPORTS", "") + imports, obs, defs_text, pool)
     if not ok:
         raise HarnessFault(f"Tie_defs.v does not compile:\n{out[-3000:]}")
     cov["tie_defs_s"] = round(secs, 1)
@@ -274,6 +273,30 @@ def eval_monitor(o, trs_packed, bdir, hdr, tag):
     q = [("codes", f"map (bad_code {o.mon_expr} {o.m0_expr}) ios")]
     res = core.coq_eval(bdir, tag, hdr, defs, q, extra_dirs=[(bdir, "Run")])
     return core.parse_nums(res["codes"]) if res["codes"].strip() != "[]" else []
+
+
+def compile_tie_defs(bdir, header, obs, defs_text, pool):
+    """Tie_defs.v holds the computed part of every obligation (certified reachability explorations etc.).  The obligations'
+    definition blocks are independent of each other in almost every property, so each is compiled as a file of its own, in
+    parallel, and Tie_defs.v re-exports them; if any part does not compile on its own (a block that refers to an earlier one, or
+    a genuine failure) the monolithic file is compiled instead, so the split can only change the wall time."""
+    t0 = time.time()
+    parts = [o for o in obs if o.defs.strip()]
+    if len(parts) > 1 and os.environ.get("VERIF_SPLIT_DEFS", "1") == "1":
+        names = []
+        for k, o in enumerate(parts):
+            fn = f"Tie_d{k}_" + re.sub(r"\W", "_", o.name)
+            (bdir / f"{fn}.v").write_text(header + o.defs)
+            names.append(fn)
+        results = list(pool.map(lambda fn: core.coqc(bdir / f"{fn}.v", extra_dirs=[(bdir, "Run")]), names))
+        if all(r[0] for r in results):
+            (bdir / "Tie_defs.v").write_text("".join(f"Require Export Run.{fn}.\n" for fn in names))
+            ok, out, _ = core.coqc(bdir / "Tie_defs.v", extra_dirs=[(bdir, "Run")])
+            if ok:
+                return ok, out, time.time() - t0
+    (bdir / "Tie_defs.v").write_text(defs_text)
+    ok, out, _ = core.coqc(bdir / "Tie_defs.v", extra_dirs=[(bdir, "Run")])
+    return ok, out, time.time() - t0
 
 
 def correspond(prop, obs, impl_traces, bdir, hdr, cov):
@@ -374,6 +397,8 @@ def main():
     seed = int(os.environ.get("VERIF_SEED", "1"))
     t0 = time.time()
     prop = importlib.import_module(f"props.{a.pid}")
+    if a.tier == "thorough":                  # larger configurations: a single exploration may take tens of minutes
+        core.COQ_TIMEOUT = max(core.COQ_TIMEOUT, 2400)
     try:
         r = run_check(prop, a.tier, seed, replay=a.replay)
         if r is None:
